@@ -794,6 +794,34 @@ def check_c13(A: Analysis) -> Dict[str, Any]:
                     raise Violation("C13.before_session_precedes_session", "")
                 if kw["what"] == "session_after" and i < mine[-1]["begin"]:
                     raise Violation("C13.after_session_follows_session", "")
+    # "after each fill" / "before each order": within one agent's submission the hooks are interleaved with the handling of its
+    # elements -- the after-execution hooks of a round run before the next element is accepted, and an element's before hook
+    # runs only after the previous element has been accepted (it may look at the book and the prices the previous one left)
+    acceptance = [i for i, (k, kw) in enumerate(items) if k == "log.write" and isinstance(kw["log"], (OrderLog, CancelLog))]
+    fill_written = {id(kw["log"]): i for i, (k, kw) in enumerate(items) if k == "log.write" and isinstance(kw["log"], ExecutionLog)}
+    if not A.no_logger:
+        for i, (k, kw) in enumerate(items):
+            if k == "hook" and kw["what"] == "execution_after" and id(kw["log"]) in fill_written:
+                j = fill_written[id(kw["log"])]
+                if any(j < a < i for a in acceptance):
+                    raise Violation("C13.after_fill_hook_runs_at_once", f"the after-execution hook for the fill at time {kw['log'].time} ran only after a later order or "
+                                                                        f"cancel had been accepted (trace items: fill {j}, hook {i})")
+        acc_of = {}
+        for i, (k, kw) in enumerate(items):
+            if k == "log.write" and isinstance(kw["log"], OrderLog):
+                acc_of.setdefault((kw["log"].market_id, kw["log"].order_id), i)
+        before_of = {id(kw["order"]): i for i, (k, kw) in enumerate(items) if k == "hook" and kw["what"] == "order_before"}
+        for _, ckw in A.consults:
+            prev = None
+            for o in ckw["raw"]:
+                if not isinstance(o, Order):
+                    prev = None
+                    continue
+                if prev is not None and id(o) in before_of and (prev.market_id, prev.order_id) in acc_of:
+                    if before_of[id(o)] < acc_of[(prev.market_id, prev.order_id)]:
+                        raise Violation("C13.before_hook_runs_right_before", f"the before-order hook of an order of agent {ckw['agent']} ran before the previous order of the "
+                                                                             f"same submission had been accepted")
+                prev = o
     types = collections.Counter(k[1] + ("_before" if k[2] else "_after") for k in got)
     return {"invocations": sum(got.values()), "combos": len(types), "rewritten": n_rewritten, "types": dict(types),
             "fills": len(A.fills), "cancels": len(A.returned_cancels)}
